@@ -1,7 +1,7 @@
 (* Main.v — single entry point of the extracted model: one request tree in, one
    response tree out.  The OCaml driver only parses and prints trees. *)
 From Coq Require Import String List.
-From Prov Require Import Str Sexp Tables Nsm Scope Values Record World Jtree Json JsonSpec Provn ProvnSpec XmlSpec IO IODispatch Dot Xml XmlLabel XmlRec XmlRead XmlScope Rdf Rdfq RdfVal Dotg DotLabel Interp.
+From Prov Require Import Str Sexp Tables Nsm Scope Values Record World Jtree Json JsonSpec Provn ProvnSpec XmlSpec IO IODispatch Dot Xml XmlLabel XmlRec XmlRead XmlReadDoc XmlScope Rdf Rdfq RdfVal Dotg DotLabel Interp.
 Import ListNotations.
 Open Scope string_scope.
 
@@ -109,6 +109,25 @@ Definition run (req : sexp) : sexp :=
           | (b, OK _) => L [A "ok"; L (map sx_rec (brecs b))]
           | (b, Raise e) => L [A "raise"; A (exc_name e)]
           | (b, OutOfDomain) => A "out-of-domain"
+          end
+      | _, _, _ => A "bad-request"
+      end
+  (* a whole PROV-XML tree read by the model of the library's reader (XmlReadDoc.xml_read_document): the document it builds,
+     with its managers *)
+  | L [A "xmlreaddoc"; L ft; L pmap; t] =>
+      let px_pm (x : sexp) : option (string * option string) :=
+        match x with
+        | L [A ns; A "none"] => Some (ns, None)
+        | L [A ns; L [A "some"; A p]] => Some (ns, Some p)
+        | _ => None
+        end in
+      match px_list px_fentry ft, px_list px_pm pmap, px_xnode 64 t with
+      | Some tab, Some pm, Some tree =>
+          let prefix_of (ns : string) := match lookup ns pm with Some p => p | None => None end in
+          match xml_read_document tab prefix_of tree with
+          | OK dd => L [A "ok"; sx_doc dd]
+          | Raise e => L [A "raise"; A (exc_name e)]
+          | OutOfDomain => A "out-of-domain"
           end
       | _, _, _ => A "bad-request"
       end
